@@ -114,7 +114,7 @@ func ZZ_C13_add_plain() { zzC13Add(false) }
 func ZZ_C13_add_exact() { zzC13Add(true) }
 
 func zzC13Quantile(exact bool) {
-	zzvBound("quantile", "all 2^64 bit patterns of q incl. NaN, -0, the floats adjacent to 0 and 1; sketch empty or not")
+	zzvBound("quantile", "all 2^64 bit patterns of q incl. NaN, -0, the floats adjacent to 0 and 1; sketch empty or not; exact statistics spread out or with minimum == maximum")
 	m := zzRealMapping(0)
 	nonEmpty := zzvChoose("nonEmpty", 2) == 1
 	s := zzSmallSketch(m, nonEmpty)
@@ -124,9 +124,14 @@ func zzC13Quantile(exact bool) {
 	if exact {
 		st := stat.NewSummaryStatistics()
 		if nonEmpty {
-			st.Add(-1, 3)
-			st.Add(0, 1)
-			st.Add(2, 2)
+			if zzvChoose("allValuesIdentical", 2) == 1 {
+				// everything absorbed was one and the same value: exact minimum == exact maximum
+				st.Add(2, 6)
+			} else {
+				st.Add(-1, 3)
+				st.Add(0, 1)
+				st.Add(2, 2)
+			}
 		}
 		e := &DDSketchWithExactSummaryStatistics{DDSketch: s, summaryStatistics: st}
 		if zzvChoose("batch", 2) == 1 {
